@@ -4,7 +4,7 @@
 import json, os, re, sys
 S = "/verif/seeded"
 lines = json.load(open("/verif/tools/seed_lines.json"))
-for sid in sorted(os.listdir(S)):
+for sid in sorted(x for x in os.listdir(S) if re.match(r"C\d\d", x)):
     d = os.path.join(S, sid)
     mp = os.path.join(d, "meta.json")
     meta = json.load(open(mp)) if os.path.exists(mp) else {}
